@@ -128,14 +128,17 @@ func TestC05(t *testing.T) {
 					run.Violation("history-pattern:is-any-registered", fmt.Sprintf("IsAnyPipelineRegistered(%s)=%v but %d pipelines are registered", ty, got, len(shadow.M.PipesOf(ty))), map[string]any{"history": opsString(h)})
 				}
 			}
-			if out.Mismatch != "" {
-				run.Inconclusive("a call's result differs from the model (C06/C07's subject): " + out.Mismatch)
-				break
-			}
 			failed := !out.RealOK && op.Kind != "rmpipe"
 			if !failed {
+				if out.Mismatch != "" {
+					run.Inconclusive("a call's result differs from the model (C06/C07's subject): " + out.Mismatch)
+					break
+				}
 				continue
 			}
+			// (a failing call is compared with "the same history without it" whether or not the model
+			// agrees that it had to fail)
+			mismatch := out.Mismatch
 			// the failing call must be a no-op: replay with and without it and compare what can be observed
 			run.Progress("C05 noop %v", opsString(h))
 			with := replayOps(h, plainStyle, 11).Observe(a.Types, a.allIDs())
@@ -152,6 +155,10 @@ func TestC05(t *testing.T) {
 			run.Add("failing_calls_checked", 1)
 			if run.NeedSample() {
 				run.Sample(map[string]any{"history": opsString(h), "failing_call": op.String(), "observable_state": with})
+			}
+			if mismatch != "" {
+				run.Inconclusive("a call's result differs from the model (C06/C07's subject): " + mismatch)
+				break
 			}
 		}
 	}
